@@ -457,4 +457,87 @@ Proof.
   - intros _. apply nf_bind; [nf0 cost_setlo|intros _; nf0 cost_setm].
 Qed.
 
+
+(* iteration *)
+Lemma nf_rt_iter : nf rt_iter.
+Proof.
+  unfold rt_iter. apply nf_bind; [nf0 cost_getm|]. intros t. apply nf_bind; [nf0 cost_take_order|]. intros l.
+  apply nf_bind; [nf0 cost_getlo|]. intros [o|]; [|apply nf_ret]. destruct (_ <? _); [apply nf_fault|apply nf_ret].
+Qed.
+
+Lemma nf_set_value im k v : nf (set_value im k v).
+Proof. nf0 cost_set_value. Qed.
+
+Lemma nf_map_iter delta : nf (map_iter delta).
+Proof.
+  unfold map_iter. apply nf_bind; [apply nf_rt_iter|]. intros l.
+  apply nf_bind; [apply nf_iterM; intros x; apply nf_when, nf_set_value|intros _; apply nf_ret].
+Qed.
+
+Lemma nf_old_take k : nf (old_take c k).
+Proof. nf0 cost_old_take. Qed.
+
+Lemma nf_rt_erase im k : nf (rt_erase c im k).
+Proof.
+  unfold rt_erase. destruct im.
+  - apply nf_bind; [nf0 cost_getm|]. intros t. apply nf_bind; [nf0 cost_hb_remove|]. intros x.
+    apply nf_bind; [nf0 cost_setm|intros _; nf0 cost_drop_elem].
+  - apply nf_bind; [nf0 cost_getlo|]. intros [o|]; [|apply (nf_of_cost dz), cost_unwind; discriminate].
+    apply nf_bind; [apply nf_old_take|intros e; nf0 cost_drop_elem].
+Qed.
+
+Lemma nf_map_retain keep delta : nf (map_retain c keep delta).
+Proof.
+  unfold map_retain. apply nf_bind; [apply nf_rt_iter|]. intros l. apply nf_bind; [|intros _; apply nf_ret].
+  apply nf_iterM. intros x. apply nf_bind; [nf0 cost_cb|]. intros _.
+  apply nf_bind; [apply nf_when, nf_set_value|]. intros _. apply nf_when, nf_rt_erase.
+Qed.
+
+Lemma nf_rt_remove im k : nf (rt_remove c im k).
+Proof. apply (nf_of_cost _ _ (cost_rt_remove im k)). Qed.
+
+Lemma nf_df_run take delta : forall l fuel acc, nf (df_run c take delta l fuel acc).
+Proof.
+  induction l as [|x l IH]; intros fuel acc; cbn [df_run]; [apply nf_ret|].
+  destruct fuel as [|f]; [apply nf_ret|].
+  apply nf_bind; [nf0 cost_cb|]. intros _. apply nf_bind; [apply nf_when, nf_set_value|]. intros _.
+  destruct (inb _ _); [|apply IH]. apply nf_bind; [apply nf_rt_remove|intros e'; apply IH].
+Qed.
+
+Lemma nf_map_drain_filter take delta j forget : nf (map_drain_filter c take delta j forget).
+Proof.
+  unfold map_drain_filter. apply nf_bind; [apply nf_rt_iter|]. intros l.
+  apply nf_bind; [apply nf_df_run|]. intros r. apply nf_bind; [|intros _; apply nf_ret].
+  destruct forget; [apply nf_ret|]. apply nf_bind; [apply nf_df_run|intros r'; nf0 cost_drop_elems].
+Qed.
+
+Lemma nf_cursor_view o : nf (cursor_view o).
+Proof. unfold cursor_view. destruct o as [o|]; [|apply nf_ret]. destruct (_ <? _); [apply nf_fault|apply nf_ret]. Qed.
+
+Lemma nf_drain_order : nf drain_order.
+Proof.
+  unfold drain_order. apply nf_bind; [nf0 cost_getm|]. intros t. apply nf_bind; [nf0 cost_take_order|]. intros lm.
+  apply nf_bind; [nf0 cost_getlo|]. intros o. apply nf_bind; [apply nf_cursor_view|]. intros lold.
+  apply nf_bind; [nf0 cost_debug_check|intros _; apply nf_ret].
+Qed.
+
+Lemma nf_map_drain j forget : nf (map_drain j forget).
+Proof.
+  unfold map_drain. apply nf_bind; [nf0 cost_getm|]. intros t. apply nf_bind; [nf0 cost_getlo|]. intros o.
+  apply nf_bind; [apply nf_drain_order|]. intros l. apply nf_bind; [nf0 cost_setlo|]. intros _.
+  apply nf_bind; [|intros _; apply nf_ret]. destruct forget.
+  - apply nf_bind; [apply nf_when, (nf_of_cost _ _ cost_tick_free)|intros _; nf0 cost_setm].
+  - apply nf_bind; [nf0 cost_drop_elems|]. intros _.
+    apply nf_bind; [apply nf_when, (nf_of_cost _ _ cost_tick_free)|intros _; nf0 cost_setm].
+Qed.
+
+Lemma nf_map_into_iter j : nf (map_into_iter j).
+Proof.
+  unfold map_into_iter. apply nf_bind; [nf0 cost_getm|]. intros t. apply nf_bind; [nf0 cost_getlo|]. intros o.
+  apply nf_bind; [apply nf_drain_order|]. intros l. apply nf_bind; [nf0 cost_drop_elems|]. intros _.
+  apply nf_bind; [apply nf_when, (nf_of_cost _ _ cost_tick_free)|]. intros _.
+  apply nf_bind; [apply (nf_of_cost _ _ (cost_hb_free _))|]. intros _.
+  apply nf_bind; [nf0 cost_setlo|]. intros _. apply nf_bind; [nf0 cost_setm|intros _; apply nf_ret].
+Qed.
+
 End CostRaw.
